@@ -282,8 +282,10 @@ PROPS.update({
     "C10": gw("C10",
               "Lean theorems c10_deadline (timer at now + connectTransactionTimeout = 5000 ms, constant regenerated from the source), c10_timer_kept_* (no step of the "
               "exchange re-arms or stops it), c10_expire (expiry on an unfinished exchange cancels the session with the timeout error, C13 then closes the broker "
-              "connection); the real-time bound (timeout + poll interval) is measured on the real handler under the virtual clock by the monitor Spec.c10",
-              "theorems c10_*; monitor Spec.c10 (virtual-clock deadline) on implementation traces",
+              "connection); ALL RUNS: c10_deadline_never_postponed (from ANY reachable state, after ANY further sequence of timed events an unfinished connect exchange "
+              "is finished, or the session has ended, or the exchange still has exactly the deadline it had: component Kept of the frame F9, Lemmas/GwConnCount.lean); "
+              "the real-time bound (timeout + poll interval) is measured on the real handler under the virtual clock by the monitor Spec.c10",
+              "theorems c10_* (one-step) + c10_deadline_never_postponed (all runs); monitor Spec.c10 (virtual-clock deadline) on implementation traces",
               assumptions=["real-time bound measured under testing/synctest; the connection poll interval is the harness' fake connection's"]),
     "C11": gw("C11",
               "Lean theorems c11_asleep_silent, c11_flush, c11_wake (exactly the buffered packets, once each, in order, then PINGRESP; buffer empty; asleep again), "
